@@ -69,6 +69,30 @@ def audit_props(pid):
     return {'ok': rc == 0, 'log': out[-3000:], 'axioms': sorted(axioms), 'closed': closed, 'theorems': theorems, 'n_print': n_print}
 
 
+def coqchk_props(pid):
+    """Thorough tier: re-check the compiled closure of Props/<pid>.vo with the independent checker; list the axioms."""
+    rc, out = sh("timeout 3000 coqchk -o -silent -Q %s Rubato Rubato.Props.%s" % (COQ, pid), cwd=COQ, timeout=3100)
+    axioms, bad = [], []
+    section = None
+    watched = ('type-in-type', 'unsafe', 'positivity')
+    for line in out.split('\n'):
+        t = line.strip()
+        if t.startswith('* '):
+            head = t[2:]
+            section = head.split(':')[0]
+            rest = head.split(':', 1)[1].strip() if ':' in head else ''
+            if any(w in section for w in watched) and rest and rest != '<none>':
+                bad.append(head)
+            continue
+        if not t or t.startswith('CONTEXT'):
+            continue
+        if section == 'Axioms':
+            axioms.append(t)
+        elif section and any(w in section for w in watched):
+            bad.append("%s: %s" % (section, t))
+    return {'ok': rc == 0, 'axioms': axioms, 'bad': bad, 'log': out[-1500:]}
+
+
 def build_everything(pid, need_model=True):
     """Returns dict of obligations: name -> (ok, detail)."""
     obl = {}
@@ -150,6 +174,14 @@ def main():
         obl['audit:no-admitted-or-axiom'] = (not forb, "; ".join(forb[:10]))
         missing = [t for t in P.get('pinned', []) if t not in audit['theorems']]
         obl['audit:pinned-theorems-present'] = (not missing, "missing: %s" % missing)
+        if tier == 'thorough' and not replay:
+            ck = coqchk_props(pid)
+            short = {a.split('.')[-1] for a in ck['axioms']}
+            allowed_short = {a.split('.')[-1] for a in allowed}
+            extra = sorted(short - allowed_short)
+            obl['audit:coqchk'] = (ck['ok'] and not extra and not ck['bad'],
+                                   "coqchk -o on Rubato.Props.%s: axioms of the loaded closure %s; not allowed: %s; other: %s%s"
+                                   % (pid, sorted(short), extra, ck['bad'], '' if ck['ok'] else ' | ' + ck['log'][-600:]))
         for tname in audit['theorems']:
             obl['thm:' + tname] = (True, 'Qed, re-checked by coqc')
     # generated-summary obligations (C09 / C18)
